@@ -56,6 +56,8 @@ var extras = map[string]ruleFn{
 		isSelfTable(c, r, "C07.R8")
 		fieldScanRules(c, r, "C07.R9")
 		propsStageRules(c, r, "C07.R9")
+		// "receives exactly the component registered under that name": also when an earlier point of the holder missed
+		depTableRules(c, r, "C07.R10", "independent")
 	},
 	// "required=false points that cannot be satisfied leave their field at its zero value"
 	"C09": func(c *core.Ctx, r *core.Report) {
@@ -64,6 +66,8 @@ var extras = map[string]ruleFn{
 		propsStageRules(c, r, "C09.E4")
 		furtherRules(c, r, "C09.E3", "optional-cleared", "required-error")
 		writerRules(c, r, "C09.E3")
+		// "an initialization callback reports an error -> Run returns an error": whatever the callback returns beside it
+		initErrorRules(c, r, "C09.E5")
 	},
 	// "only components whose declared qualifier is in the requested set": qualifier texts are compared exactly
 	// "a unique component without a custom name wins": which components count as custom-named
@@ -78,6 +82,10 @@ var extras = map[string]ruleFn{
 	"C10": func(c *core.Ctx, r *core.Report) {
 		sorterRules(c, r, "C10.R6")
 		registerRules(c, r, "C10.R7")
+		// "under every goroutine schedule of the parallel scanning phase": scanners asking for one name share one definition
+		newMetaRules(c, r, "C10.R8")
+		// "which component it receives": every component-typed point is narrowed, whatever tag collected its candidates
+		furtherRules(c, r, "C10.R9", "narrowed-once")
 	},
 	// "receives ... the tag's value and arguments"; every processor sees every property
 	"C11": func(c *core.Ctx, r *core.Report) {
@@ -175,6 +183,9 @@ var extras = map[string]ruleFn{
 	"C17": func(c *core.Ctx, r *core.Report) {
 		// the three binding paths read one configuration and see every tagged field
 		binderRules(c, r, "C17.R8")
+		// a placeholder (and the prop shorthand, which becomes one) resolves nested keys completely; one property per field
+		replaceAllTable(c, r, "C17.R10")
+		tagScanRules(c, r, "C17.R9")
 		fieldScanRules(c, r, "C17.R9")
 		chainActiveRules(c, r, "C17.R9")
 		propsStageRules(c, r, "C17.R9")
